@@ -39,11 +39,18 @@ def run(tier="quick", seed=0, replay=None):
         print(open(replay).read())
         return 1
     core.lean_stage(chk, "C01")
+    from harness import cover
+    _cv = cover.Cover(['ixai/explainer/sage/incremental.py', 'ixai/explainer/base.py', 'ixai/utils/tracker/multi_value.py', 'ixai/imputer/marginal_imputer.py', 'ixai/imputer/default_imputer.py'])
+    _cv.__enter__()
     quick = tier == "quick"
     rigs, cfgs = [], []
 
-    def one(cfg, nsteps, perms=None):
+    def one(cfg, nsteps, perms=None, faults=0):
         rig = _expl.run_stream(chk, cfg, 1, None)  # seed call
+        if faults:
+            per = 4 + cfg["d"] * 4
+            rig.fail_at = {chk.rng.randrange(2, 2 + per * (nsteps - 1)): True for _ in range(faults)}
+            chk.stat("streams_with_faults")
         for t in range(1, nsteps):
             kw = {}
             if chk.rng.random() < 0.15:
@@ -56,6 +63,13 @@ def run(tier="quick", seed=0, replay=None):
                 f = identity_fails(rig)
                 if f:
                     chk.violation("efficiency", f"IncrementalSage {_expl.cfg_desc(cfg)} after call {t + 1}: {f}",
+                                  _expl.replay_payload(rig, cfg, t))
+                    break
+            elif rec["error"] == "fault":
+                chk.stat("faults_hit")
+                f = identity_fails(rig)
+                if f:
+                    chk.violation("efficiency-after-failure", f"IncrementalSage {_expl.cfg_desc(cfg)}: a callback raised during call {t + 1}; afterwards {f}",
                                   _expl.replay_payload(rig, cfg, t))
                     break
             else:
@@ -72,8 +86,11 @@ def run(tier="quick", seed=0, replay=None):
         rigs.append(rig)
         cfgs.append(cfg)
 
-    for cfg in _expl.gen_configs(chk, "sage", 60 if quick else 600):
-        one(cfg, chk.rng.randint(3, 6))
+    for ci, cfg in enumerate(_expl.gen_configs(chk, "sage", 60 if quick else 600)):
+        if ci % 3 == 2:
+            one(cfg, chk.rng.randint(5, 8), faults=chk.rng.randint(1, 3))   # callbacks fail, the stream is resumed
+        else:
+            one(cfg, chk.rng.randint(3, 6))
     # all permutation sequences for d <= 3 over two explained steps
     for d in (2, 3):
         allp = list(itertools.permutations(range(d)))
@@ -101,6 +118,8 @@ def run(tier="quick", seed=0, replay=None):
             t, ob, iv, mv = diffs[0]
             chk.tie_failure("correspondence:IncrementalSage",
                             f"{_expl.cfg_desc(cfg)} call {t + 1}: {ob} impl={str(iv)[:200]} model={str(mv)[:200]}")
+    _cv.__exit__(None, None, None)
+    cover.gate(chk, _cv, only_functions=['IncrementalSage', 'BaseIncrementalFeatureImportance.__init__', 'BaseIncrementalFeatureImportance.importance_values', 'BaseIncrementalExplainer.__init__', '_get_mean_model_output', 'MultiValueTracker', 'MarginalImputer', 'DefaultImputer'])
     chk.exhaustive = False
     chk.extra["explanation"] = ("sage_efficiency is a Lean theorem for every prefix/callback/order/kind/alpha/d/n about Model/Explainer.lean; "
                                 "the model is tied to ixai/explainer/sage/incremental.py by running both on identical recorded callbacks "
